@@ -53,6 +53,10 @@ func Bytes(r *goja.Runtime, v goja.Value) []byte {
 	var b []byte
 	err := r.ExportTo(v, &b)
 	if err != nil {
+		if _, isObject := v.(*goja.Object); isObject {
+			// stringifying an object may call a Buffer method (toString) on the same receiver again, without end
+			panic(errors.NewTypeError(r, errors.ErrCodeInvalidArgType, "The value must be a Buffer, a TypedArray or an array of bytes."))
+		}
 		return []byte(v.String())
 	}
 	return b
